@@ -1092,6 +1092,9 @@ class Scheduler:
         possible_stripes = [
             final_ofm_shape.with_height(stripe_h) for stripe_h in range(min_stripe_h, final_ofm_shape.height // 2 + 1)
         ]
+        if is_nearest(last_op.resampling_mode):
+            # is nearest requires even stripes
+            possible_stripes = [stripe for stripe in possible_stripes if stripe.height % 2 == 0]
         # Propose different striping
         best_schedule = None
         max_nbr_of_cascades = 0
